@@ -1,15 +1,16 @@
 """C12 — the stub file declares exactly the functions the assembly defines."""
 import hashlib, json, os
-from vlib import core, modules
+from vlib import core
 
 MODS = ["AvoVerif.Props.C12"]
+GO_FILES = ["c12.go", "c12enc.go"]
 
 
-def differential_fmt(ctx, sub, n, extra=(), nontrivial=None, max_report=1000, timeout=3600):
+def differential_fmt(ctx, sub, n, extra=(), nontrivial=None, max_report=20, timeout=3600, tag=""):
     """Like ctx.differential, but the model's `stubs` answers (the text handed to go/format) are
     passed through the toolchain's format.Source (`avoh c12fmt`) before the comparison:
     printer.NewStubs = format.Source o (model's printStubs)."""
-    base = os.path.join(ctx.dir, sub)
+    base = os.path.join(ctx.dir, sub + tag)
     ops, impl, model, fmt, stats = (base + s for s in (".ops", ".impl", ".model", ".fmt", ".stats.json"))
     args = [sub, "-seed", str(ctx.seed), "-n", str(n), "-ops", ops, "-impl", impl, "-stats", stats,
             "-tier", ctx.tier, "-repo", core.REPO] + list(extra)
@@ -18,9 +19,11 @@ def differential_fmt(ctx, sub, n, extra=(), nontrivial=None, max_report=1000, ti
         ctx.log(f"avoh {sub} failed rc={rc}: {out[-3000:]}")
         ctx.obligation_failures.append((f"avoh {sub}", out[-3000:]))
         return None
+    if out.strip():
+        ctx.log(f"avoh {sub}{tag}: {out.strip()[-1500:]}")
     if not ctx.run_driver(ops, model, timeout=timeout):
         return None
-    rc, out = ctx.avoh(["c12fmt", "-ops", ops, "-model", model, "-out", fmt], timeout=timeout)
+    rc, out = ctx.avoh(["c12fmt", "-ops", ops, "-impl", impl, "-model", model, "-out", fmt], timeout=timeout)
     if rc != 0:
         ctx.obligation_failures.append(("avoh c12fmt", out[-3000:]))
         return None
@@ -38,27 +41,54 @@ def differential_fmt(ctx, sub, n, extra=(), nontrivial=None, max_report=1000, ti
                 rec = {"request": req, "impl": a, "model": b, "sub": sub}
                 if req.startswith("accept-"):
                     rec["key"] = req
-                    if len(ctx.concrete) < max_report:
+                    # the cap counts UNLISTED failures only (one representative per listed finding)
+                    f = ctx.match_finding(req, b)
+                    if f is not None:
+                        if f["id"] not in ctx._known_reps:
+                            ctx._known_reps[f["id"]] = True
+                            ctx.concrete.append(rec)
+                    elif ctx._unlisted < max_report:
+                        ctx._unlisted += 1
                         ctx.concrete.append(rec)
                 elif len(ctx.corr_failures) < max_report:
                     ctx.corr_failures.append(rec)
     for pth in (impl, fmt):
         c = sum(1 for _ in open(pth))
         if c != nlines or c == 0:
-            ctx.obligation_failures.append((f"{sub}: line count", f"ops/impl/model line counts differ or empty ({pth}: {c} vs {nlines})"))
+            ctx.obligation_failures.append((f"{sub}{tag}: line count", f"ops/impl/model line counts differ or empty ({pth}: {c} vs {nlines})"))
     ctx.evaluations += nlines
+    st = {}
     try:
-        ctx.coverage.setdefault("input_distribution", {})[sub] = json.load(open(stats))
+        st = json.load(open(stats))
+        ctx.coverage.setdefault("input_distribution", {})[sub + tag] = st
     except Exception:
-        pass
-    ctx.log(f"{sub}: {nlines} requests, {mism} mismatches")
-    return mism
+        ctx.obligation_failures.append((f"{sub}{tag}: stats", "no statistics written"))
+    ctx.log(f"{sub}{tag}: {nlines} requests, {mism} mismatches")
+    return st
+
+
+def floors(ctx, name, st, spec):
+    """Lower bounds on the number of JUDGED cases: a change that makes a whole class of cases drop out
+    (printer error, build.Context error, constraint formatting error, …) must not pass silently."""
+    if st is None:
+        return
+    for key, lo in spec.items():
+        if st.get(key, 0) < lo:
+            ctx.obligation_failures.append((f"{name}: sample floor", f"{key} = {st.get(key, 0)} < {lo} (stats: {json.dumps(st, sort_keys=True)[:1500]})"))
+
+
+def corpus_file(ctx, name):
+    d = os.path.join(core.VERIF, "corpus", "C12")
+    p = os.path.join(d, name)
+    if not os.path.exists(p):
+        return None, 0
+    lines = [l for l in open(p).read().splitlines() if l.strip() and not l.startswith("#")]
+    return (p, len(lines)) if lines else (None, 0)
 
 
 def run(ctx):
-    if not ctx.build_harness():
+    if not ctx.build_harness(GO_FILES):
         return
-    ctx.regen([modules.TEXTFLAGS, modules.TEXTFLAGH])
     ctx.forbidden_scan()
     if not ctx.build_driver():
         return
@@ -67,26 +97,79 @@ def run(ctx):
     if ctx.tier == "thorough":
         ctx.leanchecker(MODS)
     quick = ctx.tier == "quick"
-    differential_fmt(ctx, "c12", 400 if quick else 40000,
-                     nontrivial=lambda req, resp: " fn " in req)
-    differential_fmt(ctx, "c12build", 40 if quick else 1500, extra=["-work", ctx.dir],
-                     nontrivial=lambda req, resp: req.startswith("accept-build") and " fn " in req)
+    has = lambda req, resp: " fn " in req or " 666e " in req
+    # corpus first: hand-picked and minimised case descriptors (JSON lines)
+    ncorpus = 0
+    p, k = corpus_file(ctx, "cases.txt")
+    if p:
+        st = differential_fmt(ctx, "c12", k, extra=["-work", ctx.dir, "-replay", p], tag="-corpus", nontrivial=has)
+        floors(ctx, "c12-corpus", st, {"judged_gostub": max(1, k - 2)})
+        ncorpus += k
+    p, k = corpus_file(ctx, "build.txt")
+    if p:
+        st = differential_fmt(ctx, "c12build", k, extra=["-work", ctx.dir, "-replay", p], tag="-corpus", nontrivial=has)
+        floors(ctx, "c12build-corpus", st, {"pairs": k, "pair_linked": 1})
+        ncorpus += k
+    ctx.coverage["corpus_cases"] = ncorpus
+    if ctx.replay:
+        # ./check --replay: the recorded run is regenerated from its seed and tier (set by ./check)
+        ctx.notes.append("replay: cases regenerated from the recorded seed and tier")
+    n = 400 if quick else 40000
+    st = differential_fmt(ctx, "c12", n, extra=["-work", ctx.dir, "-descs", os.path.join(ctx.dir, "c12.descs.jsonl")], nontrivial=has)
+    floors(ctx, "c12", st, {
+        "wf_1": n * 8 // 10, "wf_0": 2, "judged_gostub": n * 8 // 10, "judged_cons": n * 8 // 10, "judged_fn": n, "judged_fn_doc": n // 3,
+        "judged_fn_pragma": n // 4, "judged_fn_doc_and_pragma": n // 10, "judged_fn_variadic": n // 20,
+        "judged_fn_literal_type": n // 10, "judged_file_without_doc": n // 10,
+        "via_ir": n // 5, "via_ctx": n // 3, "via_implement": 3 if quick else 30,
+        "route_new": n // 10, "route_parse": n // 10, "route_expr": n // 40, "route_ctx_expr": n // 40,
+        "route_lookup": n // 10, "route_implement": 3 if quick else 30, "type_foreign": 3,
+    })
+    nb = 40 if quick else 1500
+    st = differential_fmt(ctx, "c12build", nb, extra=["-work", ctx.dir],
+                          nontrivial=lambda req, resp: req.startswith("accept-build") and has(req, resp))
+    floors(ctx, "c12build", st, {
+        "pairs": nb * 9 // 10, "pair_both": nb // 2, "pair_linked": nb // 2, "pair_neither": 1,
+        "param_loaded": nb // 2, "result_stored": nb // 2,
+    })
+    ctx.coverage["proof_partial"] = (
+        "PROVED (Lean, all inputs): the text handed to go/format declares the configured package once and each function of the file "
+        "exactly once in file order, each declaration directly preceded by its doc lines and then its directives (parse_stubs, "
+        "declared_once over structured lines; stub_text_reads_back over the BYTES, under the explicit hypothesis that no token contains a "
+        "newline and each Stub() text is `func NAME(`…); the constraint block is the same function of the file for both printers and "
+        "stands right after the generated-code comment (constraints_position); declarations and TEXT lines are both the function list "
+        "(stubs_match_asm); the acceptors run on real output are sound for their declarative statements (acceptStubs_sound, "
+        "acceptCons_sound) and accept the model's own text (acceptStubs_model); the identifiers read from the stub bytes are the symbols of "
+        "the TEXT lines (stub_names_are_text_symbols); the driver's executable check of the token hypotheses is sound (wfStubsB_sound; run on "
+        "every case as `wf-stubs`). NOT PROVED, measured on generated cases only: that "
+        "go/format preserves all this, that the result is valid gofmt-stable Go, type identity of the printed signature "
+        "(types.WriteSignature is opaque), compile/link/vet. newline_injects_declaration is a proved NEGATIVE witness (finding).")
     ctx.coverage["rule"] = (
-        "generated files: 0-15 functions with signatures from a type grammar (basic, named, pointer, slice, array, struct with "
-        "blank/grouped/tagged fields, map/chan/func/interface; unnamed/named/blank/grouped parameters and results, variadic) x doc "
-        "lines (incl. %, indentation, list/heading/link syntax) x pragmas x constraint sets, data sections interleaved. `stubs`: "
-        "printer.NewStubs output == go/format(model's pre-format text) byte for byte; `accept-stubs`/`accept-cons`: Lean acceptor on the "
-        "real output (package clause, one func line per function in order, directives above it, constraint lines equal to the assembly "
-        "output's); `accept-gostub`: go/parser + go/types (file type-checks, types.Identical to the signature given to avo, doc and "
-        "directives attached, go/format idempotent); c12build: stub+asm+helper types as packages of one module: go list (same "
-        "constraints select both files), go build, go vet -asmdecl. non-trivial = file has at least one function")
+        "case descriptors (generated; forced witnesses; corpus/C12): 0-15 functions with signatures from a type grammar (basic incl. any/error, "
+        "named, alias, instantiated generic, pointer, slice, array, struct with blank/grouped/tagged/embedded fields, interface literals with "
+        "methods/embedding, func incl. variadic, map/chan in all directions, types of other packages; unnamed/named/blank/grouped parameters and "
+        "results, variadic) x doc lines (incl. %, indentation, list/heading/link syntax, comment/keyword look-alikes) x 0-4 directives of 10 kinds "
+        "x 0-5 constraint expressions of 17 x Config (4 names, 6 Argv shapes), data sections interleaved. Routes: ir.File built by hand; "
+        "build.Context (ConstraintExpr, Function, Signature/SignatureExpr, Doc, Pragma); gotypes.NewSignature / ParseSignatureInPackage / "
+        "ParseSignature / LookupSignature; build.Context.Package + Implement on an on-disk package (a few per run). The EXPECTED signature is "
+        "evaluated by the harness with go/types from the expression, never read back from avo. `wf-stubs`: the token hypotheses of the text-level theorems evaluated by harness and driver (hold on all cases but the newline "
+        "witnesses); `stubs`: printer.NewStubs output == "
+        "go/format^k(model's pre-format text), k>=1, byte for byte; `accept-stubs`/`accept-cons`: Lean acceptor on the real output (package "
+        "clause, one func line per function in order, directives above it, constraint lines equal to the assembly output's); `accept-gostub`: "
+        "go/parser + go/types (no imports needed, file type-checks, types.Identical + variadic flag + parameter/result names equal to the given "
+        "signature, doc words in order, directives last in the doc group and attached, go/format idempotent); c12build: stub+asm+helper types "
+        "as packages of one module with bodies that load every named parameter and store every named result: go list (same constraints select "
+        "both files), go build, go vet -asmdecl, and an executable referencing every function the stub DECLARES (link: declared => defined). "
+        "Lower bounds on the number of judged cases per class are obligations. non-trivial = file has at least one function")
     ctx.assumptions += [
         "printer.NewStubs is go/format applied to the modelled text; format.Source, types.WriteSignature and the compiler are opaque toolchain functions (measured, not modelled)",
-        "signatures use types of the function's own package and the universe only (avo's stub printer emits no imports)",
-        "doc text is compared as a multiset of words: go/format re-indents, renumbers list markers and moves link definitions",
-        "linkability and vet are measured on the generated sample only (results written through avo's Store to a primitive leaf; blank results not written)",
+        "the Lean theorems about the TEXT hold under explicit hypotheses: no newline in any token (doc line, directive, argument, Stub() text, package, constraint line), Stub() = `func NAME(`… with no `(` in NAME; avo does not establish them for Doc/Pragma (findings C12-doc-newline, C12-pragma-newline)",
+        "out of the generated domain (not judged): two functions of the same name, functions named init/main/_ or a Go keyword, signatures with receivers or type parameters, a package handed to NewSignature that is a second load of the function's own package (printed qualified), Config.Pkg that is a keyword",
+        "doc text is compared as the sequence of words with list markers normalised (as a multiset when the doc has link definitions): go/format re-indents, renumbers list markers and moves link definitions",
+        "linkability and vet are measured on the generated sample only (parameters/results read/written through avo's Load/Store at a primitive leaf; blank and unnamed ones are not referenced; types of other packages are not used in built pairs)",
+        "the sticky-error path of the printer (buildtags.Format failing) is not modelled: such cases are dropped (bounded by the sample floors)",
     ]
     ctx.trusted += [
-        "go/parser, go/types, go/format, go list/build/vet of the installed toolchain as ground truth for the measured part",
+        "go/parser, go/types, go/format, go list/build/vet and the linker of the installed toolchain as ground truth for the measured part",
         "the signature text (Function.Stub()) and buildtags.Format output are opaque tokens taken from the real code",
+        "harness classification of a failure into a finding class (c12Measure/c12Unstable in harness/c12.go) is glue",
     ]
